@@ -155,6 +155,7 @@ class Sched:
         self.clock = 0.0
         self.seq = 0                  # global sequence number of observable events
         self.by_ident: Dict[int, CThread] = {}
+        self.on_stuck: Optional[Callable[[], None]] = None
 
     # ---- threads ------------------------------------------------------
     def spawn(self, name: str, fn: Callable[[], None]) -> CThread:
@@ -205,6 +206,11 @@ class Sched:
             self.verdict = self.verdict or 'deadlock'
             self.blocked_at_end = [(t.name, t.pending[0], self._label(t.pending[1]))
                                    for t in live]
+            if self.on_stuck is not None:
+                try:
+                    self.on_stuck()      # observe the world before it is unwound
+                except Exception:  # noqa
+                    pass
         self._abort_all()
 
     def _abort_all(self) -> None:
